@@ -34,6 +34,8 @@ func concModelOp(kind string, recv int, tag string) Step {
 		return Step{Op: "Filter", Recv: recv, Clause: leaf("S", "ilike", &Val{T: "string", S: toBS("%AB%")})}
 	case "FilterInt":
 		return Step{Op: "Filter", Recv: recv, Clause: leaf("A", ">", &Val{T: "int", I: 0})}
+	case "FilterMixed": // an int column against a float column: the int column is promoted for the duration of the filter
+		return Step{Op: "Filter", Recv: recv, Clause: leaf("A", []string{"<", ">=", "!="}[len(tag)%3], &Val{T: "col", S: toBS("F")})}
 	case "FilterEnum":
 		return Step{Op: "Filter", Recv: recv, Clause: leaf("Y", []string{"=", "<", ">="}[len(tag)%3], &Val{T: "string", S: toBS("y7")})}
 	case "FilterAnd":
